@@ -1,4 +1,336 @@
 import LasioModel.Basic
-/- Views model (to be filled in) -/
+import LasioModel.Generated
+/-
+Views model (C18): the DECISION LOGIC of `LASFile.to_json` / `json`, `to_csv`, the index-unit detection at the end of
+`LASFile.read`, `depth_m`, `depth_ft`, `_index_unit_contains` (/repo/lasio/las.py).
+
+Trusted runtime (NOT modelled; covered by correspondence + oracle only): the `json` module (string escaping, float repr,
+layout), `csv.writer` (quoting, `str()` of a cell), numpy (`.item()`, `vstack`), openpyxl, pandas.
+-/
 namespace Lasio
+
+/-! ## JSON -/
+
+/-- the JSON number grammar `-?(0|[1-9][0-9]*)(\.[0-9]+)?([eE][+-]?[0-9]+)?` (RFC 8259 section 6) -/
+def jsonAllDigits (s : Str) : Bool := !s.isEmpty && s.all isDigit
+
+def isJsonInt : Str → Bool
+  | ['0'] => true
+  | c :: cs => c != '0' && isDigit c && cs.all isDigit
+  | [] => false
+
+/-- exponent part after the `e`/`E` -/
+def isJsonExp : Str → Bool
+  | '+' :: ds => jsonAllDigits ds
+  | '-' :: ds => jsonAllDigits ds
+  | ds => jsonAllDigits ds
+
+/-- fraction (after the `.`) and optional exponent -/
+def isJsonFracExp (s : Str) : Bool :=
+  let ds := s.takeWhile isDigit
+  !ds.isEmpty &&
+  match s.dropWhile isDigit with
+  | [] => true
+  | c :: r => (c == 'e' || c == 'E') && isJsonExp r
+
+def isJsonUnsigned (s : Str) : Bool :=
+  let ip := s.takeWhile isDigit
+  isJsonInt ip &&
+  match s.dropWhile isDigit with
+  | [] => true
+  | '.' :: r => isJsonFracExp r
+  | c :: r => (c == 'e' || c == 'E') && isJsonExp r
+
+def isJsonNumber : Str → Bool
+  | '-' :: r => isJsonUnsigned r
+  | s => isJsonUnsigned s
+
+/-- the text of a FINITE number as the `json` module writes it (`int.__repr__` / `float.__repr__`); finiteness is part of
+the type: the text is a JSON number literal, so it is none of `NaN`, `Infinity`, `-Infinity`, `nan`, `inf` -/
+structure NumText where
+  text : Str
+  ok : isJsonNumber text = true
+deriving DecidableEq
+
+/-- the three non-finite floats -/
+inductive NonFin | nan | posInf | negInf
+deriving DecidableEq, Repr
+
+/-- one scalar of the emitted JSON text.  `bare` is the non-standard token (`NaN`, `Infinity`, `-Infinity`) that
+`json.dumps` (default `allow_nan=True`) writes for a non-finite float and that a strict parser rejects. -/
+inductive JVal
+  | null
+  | bool (b : Bool)
+  | num (t : NumText)
+  | str (s : Str)
+  | bare (w : NonFin)
+deriving DecidableEq
+
+/-- accepted by a strict JSON parser (`json.loads(..., parse_constant=<raise>)`) -/
+def StrictJson : JVal → Prop
+  | .bare _ => False
+  | _ => True
+
+instance : DecidablePred StrictJson := fun v => by cases v <;> unfold StrictJson <;> infer_instance
+
+/-- a header value / sample as the encoder sees it (Python type dispatch). `np*` = numpy scalar (`np.generic`); the text
+of a numpy number is the text of its `.item()`. -/
+inductive HVal
+  | pyInt (t : NumText)
+  | pyFloat (t : NumText)
+  | pyFloatNonFinite (w : NonFin)
+  | npInt (t : NumText)
+  | npFloat (t : NumText)
+  | npFloatNonFinite (w : NonFin)
+  | text (s : Str)
+  | none
+  | bool (b : Bool)
+  | npBool (b : Bool)
+deriving DecidableEq
+
+/-- what the `json` module does NATIVELY with a Python scalar (`allow_nan=True`).  A numpy scalar that is not a Python
+`float`/`int`/`str` subclass is not serialisable natively: it goes to `JSONEncoder.default`, which has no branch for it and
+returns `None` → `null` (np.float64 IS a `float` subclass and is written natively). -/
+def pyJsonNative : HVal → JVal
+  | .pyInt t => .num t
+  | .pyFloat t => .num t
+  | .pyFloatNonFinite w => .bare w
+  | .npInt _ => .null
+  | .npFloat t => .num t
+  | .npFloatNonFinite w => .bare w
+  | .text s => .str s
+  | .none => .null
+  | .bool b => .bool b
+  | .npBool _ => .null
+
+/-- `value.item()` for `isinstance(value, np.generic)` -/
+def npItem : HVal → HVal
+  | .npInt t => .pyInt t
+  | .npFloat t => .pyFloat t
+  | .npFloatNonFinite w => .pyFloatNonFinite w
+  | .npBool b => .bool b
+  | v => v
+
+/-- `_json_value`: numpy scalars → Python scalars, then non-finite floats → `None` -/
+def jsonValueConv (v : HVal) : HVal :=
+  match npItem v with
+  | .pyFloatNonFinite _ => .none
+  | w => w
+
+/-- one header value in the emitted JSON: `_json_value` followed by the json module -/
+def jsonValue (v : HVal) : JVal := pyJsonNative (jsonValueConv v)
+
+/-- the encoder BEFORE the repair (commit 5e01986): `dictview()` values went to the json module unchanged -/
+def jsonValueOld (v : HVal) : JVal := pyJsonNative v
+
+/-- one element of `curve.data` -/
+inductive Sample
+  | f (t : NumText)          -- finite np.float64
+  | nan
+  | inf (neg : Bool)
+  | text (s : Str)           -- element of a text curve (np.str_ / str)
+  | int (t : NumText)        -- element of an integer array (np.int64)
+deriving DecidableEq
+
+def Sample.toHVal : Sample → HVal
+  | .f t => .npFloat t
+  | .nan => .npFloatNonFinite .nan
+  | .inf false => .npFloatNonFinite .posInf
+  | .inf true => .npFloatNonFinite .negInf
+  | .text s => .text s
+  | .int t => .npInt t
+
+/-- `[_json_value(x) for x in curve.data]` -/
+def jsonSample (s : Sample) : JVal := jsonValue s.toHVal
+
+/-- `d[k] = v` on an insertion-ordered Python dict: an existing key keeps its position and takes the new value -/
+def dictSet {V} (d : List (Str × V)) (k : Str) (v : V) : List (Str × V) :=
+  match d with
+  | [] => [(k, v)]
+  | (k', v') :: r => if k' = k then (k', v) :: r else (k', v') :: dictSet r k v
+
+/-- `dict(pairs)` / a dict comprehension over `pairs` -/
+def dictOf {V} (pairs : List (Str × V)) : List (Str × V) :=
+  pairs.foldl (fun d kv => dictSet d kv.1 kv.2) []
+
+/-- a section of `las.sections`: a plain string (~Other) or SectionItems as (session mnemonic, value) in order -/
+inductive SecView
+  | text (s : Str)
+  | items (its : List (Str × HVal))
+
+inductive JSec
+  | text (s : Str)
+  | obj (kvs : List (Str × JVal))
+deriving DecidableEq
+
+structure LasView where
+  sections : List (Str × SecView)          -- `las.sections.items()` (a dict: names distinct)
+  curves : List (Str × List Sample)        -- (session mnemonic, data) per curve
+
+structure JTree where
+  metadata : List (Str × JSec)
+  data : List (Str × List JVal)
+deriving DecidableEq
+
+/-- `{key: _json_value(value) for key, value in section.dictview().items()}` with `dictview() = dict(zip(keys, values))` -/
+def encodeSection : SecView → JSec
+  | .text s => .text s
+  | .items its => .obj (dictOf ((dictOf its).map fun kv => (kv.1, jsonValue kv.2)))
+
+/-- `JSONEncoder.default(las)` -/
+def encodeLas (l : LasView) : JTree :=
+  { metadata := dictOf (l.sections.map fun ns => (ns.1, encodeSection ns.2)),
+    data := dictOf (l.curves.map fun c => (c.1, c.2.map jsonSample)) }
+
+/-- every scalar of the tree -/
+def JSec.vals : JSec → List JVal
+  | .text s => [.str s]
+  | .obj kvs => kvs.map (·.2)
+
+def JTree.vals (t : JTree) : List JVal :=
+  (t.metadata.map (·.2.vals)).flatten ++ (t.data.map (·.2)).flatten
+
+/-! ## CSV -/
+
+/-- the `mnemonics=` / `units=` argument of `to_csv`: `True`, a list, or `False`/`None` -/
+inductive RowOpt
+  | dflt
+  | list (l : List Str)
+  | off
+deriving DecidableEq
+
+/-- `units_loc`: `"line"`, `"()"`, `"[]"`, anything else (`None`, other strings) -/
+inductive UnitsLoc | line | paren | bracket | other
+deriving DecidableEq
+
+structure CsvOpts where
+  mnemonics : RowOpt := .dflt
+  units : RowOpt := .dflt
+  unitsLoc : UnitsLoc := .line
+
+/-- `if x is True: x = default`; afterwards only the truthiness of `x` matters: `False`/`None`/`[]` ↦ nothing -/
+def RowOpt.resolve (o : RowOpt) (dflt : List Str) : List Str :=
+  match o with
+  | .dflt => dflt
+  | .list l => l
+  | .off => []
+
+def UnitsLoc.brackets : UnitsLoc → Option (Char × Char)
+  | .paren => some ('(', ')')
+  | .bracket => some ('[', ']')
+  | _ => none
+
+/-- `[m + " " + units_loc[0] + u + units_loc[1] for m, u in zip(mnemonics, units)]` -/
+def csvDecorate (o c : Char) (ms us : List Str) : List Str :=
+  List.zipWith (fun m u => m ++ [' ', o] ++ u ++ [c]) ms us
+
+/-- the mnemonic row, when one is written -/
+def csvMnemonicRow (o : CsvOpts) (origs units : List Str) : Option (List Str) :=
+  let ms := o.mnemonics.resolve origs
+  let us := o.units.resolve units
+  if ms.isEmpty then none
+  else match o.unitsLoc.brackets with
+    | some (a, b) => if us.isEmpty then some ms else some (csvDecorate a b ms us)
+    | none => some ms
+
+/-- the unit row, when one is written -/
+def csvUnitRow (o : CsvOpts) (units : List Str) : Option (List Str) :=
+  let us := o.units.resolve units
+  if us.isEmpty then none
+  else if o.unitsLoc = .line then some us else none
+
+/-- the records `to_csv` hands to `csv.writer.writerow`, in order.  `origs` = original mnemonics of the curves, `units` =
+their units, `rows` = `str(x)` of every cell of `self.data[i, :]` -/
+def csvRows (o : CsvOpts) (origs units : List Str) (rows : List (List Str)) : List (List Str) :=
+  (csvMnemonicRow o origs units).toList ++ (csvUnitRow o units).toList ++ rows
+
+/-! ## Index unit -/
+
+/-- `defaults.DEPTH_UNITS` as regenerated from the source -/
+def depthUnitTable : List (Str × List Str) :=
+  Generated.depthUnits.map fun r => (r.1.toList, r.2.map String.toList)
+
+/-- `any([unit == p for p in possibilities]) or any([unit.upper() == p.upper() for p in possibilities])` -/
+def unitMatches (unit : Str) (ps : List Str) : Bool :=
+  ps.any (fun p => unit == p) || ps.any (fun p => upper unit == upper p)
+
+/-- the same test BEFORE the repair (commit ae3c068): `unit.upper() == p` -/
+def unitMatchesOld (unit : Str) (ps : List Str) : Bool :=
+  ps.any (fun p => unit == p) || ps.any (fun p => upper unit == p)
+
+/-- the double loop: `for key, ps in table: for u in units: if match: matches.append(key)` -/
+def unitMatchList (mt : Str → List Str → Bool) (table : List (Str × List Str)) (units : List Str) : List Str :=
+  table.flatMap fun r => units.filterMap fun u => if mt u r.2 then some r.1 else none
+
+/-- `matches = set(matches)`; exactly one element → it, none or several → `None` -/
+def uniqueKey (ms : List Str) : Option Str :=
+  match ms.eraseDups with
+  | [k] => some k
+  | _ => none
+
+def detectWith (mt : Str → List Str → Bool) (table : List (Str × List Str)) (units : List Str) : Option Str :=
+  uniqueKey (unitMatchList mt table units)
+
+/-- index unit from the units of the candidates (STRT, STOP, STEP items of ~Well that exist, then the first curve) -/
+def detectIndexUnit (units : List Str) : Option Str := detectWith unitMatches depthUnitTable units
+
+def detectIndexUnitOld (units : List Str) : Option Str := detectWith unitMatchesOld depthUnitTable units
+
+/-- the `index_unit=` argument of `read`: `"m" in str(index_unit)` → `"m"`; truthy → itself; else detection.
+(`str(None) = "None"` contains no `m`.) -/
+def resolveIndexUnit (arg : Option Str) (units : List Str) : Option Str :=
+  match arg with
+  | none => detectIndexUnit units
+  | some s => if contains ['m'] s then some ['m'] else if s.isEmpty then detectIndexUnit units else some s
+
+/-- `self.index_unit and (unit_code.upper() in self.index_unit.upper())` as a truth value -/
+def indexUnitContains (iu : Option Str) (code : Str) : Bool :=
+  match iu with
+  | none => false
+  | some s => !s.isEmpty && contains (upper code) (upper s)
+
+inductive DConst | ft | tenthIn     -- 0.3048, 120
+deriving DecidableEq, Repr
+
+/-- symbolic value of `depth_m` / `depth_ft` in terms of `self.index` -/
+inductive DepthExpr
+  | idx
+  | mul (e : DepthExpr) (c : DConst)
+  | div (e : DepthExpr) (c : DConst)
+deriving DecidableEq, Repr
+
+/-- the branch `depth_m`/`depth_ft` take: the first of "M", "F", ".1IN" contained in the index unit -/
+inductive UnitClass | m | f | tenthIn
+deriving DecidableEq, Repr
+
+def unitClass (iu : Option Str) : Option UnitClass :=
+  if indexUnitContains iu ['M'] then some .m
+  else if indexUnitContains iu ['F'] then some .f
+  else if indexUnitContains iu ['.', '1', 'I', 'N'] then some .tenthIn
+  else none
+
+/-- `depth_m`; `none` = raises LASUnknownUnitError -/
+def depthM (iu : Option Str) : Option DepthExpr :=
+  if indexUnitContains iu ['M'] then some .idx
+  else if indexUnitContains iu ['F'] then some (.mul .idx .ft)
+  else if indexUnitContains iu ['.', '1', 'I', 'N'] then some (.mul (.div .idx .tenthIn) .ft)
+  else none
+
+/-- `depth_ft` -/
+def depthFt (iu : Option Str) : Option DepthExpr :=
+  if indexUnitContains iu ['M'] then some (.div .idx .ft)
+  else if indexUnitContains iu ['F'] then some .idx
+  else if indexUnitContains iu ['.', '1', 'I', 'N'] then some (.div .idx .tenthIn)
+  else none
+
+/-- exact rational reading (0.3048 = 381/1250); float rounding is NOT modelled -/
+def DConst.val : DConst → Rat
+  | .ft => 381 / 1250
+  | .tenthIn => 120
+
+def DepthExpr.eval (x : Rat) : DepthExpr → Rat
+  | .idx => x
+  | .mul e c => e.eval x * c.val
+  | .div e c => e.eval x / c.val
+
 end Lasio
